@@ -12,10 +12,12 @@
      instructions: every instruction with a class / field / method reference operand (C07/BridgeDefs.v op_ref: new,
             anewarray, checkcast, instanceof, multianewarray, get/putstatic, get/putfield, invokevirtual / special /
             static / interface), every instruction without operand ([simple_ops]: 0–15, 46–53, 79–131, 133–152, 172–177,
-            190, 191, 194, 195), the conditional jumps, goto, jsr ([branch_ops]).
+            190, 191, 194, 195), the conditional jumps, goto, jsr ([branch_ops]), ldc of an Integer / Long / Class /
+            String / MethodHandle / MethodType / Dynamic constant and invokedynamic ([ld_ref]: handles and bootstrap
+            arguments recursively), the local-variable family (xload / xstore / iinc / ret with their short, plain and wide
+            forms), bipush, sipush, newarray, tableswitch, lookupswitch.
    Strings go through C02's JVMS 4.4.7 encoder [mutf8]; numbers are read from their token text.
-   OUTSIDE ([tr] answers None): instructions with other operands (loads / stores with a local index, bipush, sipush, ldc,
-   iinc, newarray, ret, the switches, invokedynamic), stack map frames, ConstantValue, annotations and type annotations,
+   OUTSIDE ([tr] answers None): ldc of a Float / Double constant, stack map frames, ConstantValue, annotations and type annotations,
    AnnotationDefault, MethodParameters, local-variable tables, InnerClasses, EnclosingMethod, SourceDebugExtension,
    module data, nest and permitted-subclass records, record components, unknown attributes. *)
 From Coq Require Import String Ascii ZArith.
@@ -94,20 +96,238 @@ Definition branch_ops : list (string * C02.Model.kind) :=
 Definition label_of (v : val) : option N :=
   match v with VNode _ _ fs => obind (fld fs "id") n_of | _ => None end.
 
+(* ---------------- loadable constants (ldc / ldc_w / ldc2_w), method handles, invokedynamic ----------------
+   The projections of duke's Loadable / Handle / ConstantDynamic / InvokeDynamic tree values.  Intermediate form with the
+   strings as code points ([xhandle] / [xload] / [xop]: the remapper can be asked about them — remap_xhandle / remap_xload /
+   remap_xop), then C02's handle / loadable / cinsn ([chandle_of] / [cload_of] / [cinsn_of_x]: strings through mutf8).
+   Reference kinds of JVMS 4.4.8 (1 getField … 9 invokeInterface, as harness/src/bin/c02/tree.rs numbers them); the bool of
+   Handle::InvokeStatic / InvokeSpecial chooses CONSTANT_InterfaceMethodref.  The recursion over bootstrap arguments is
+   structural on the tree value (remap.rs has no depth limit there: it recurses as deep as the tree is).
+   Integer / Long constants are read from their token text (optional '-', decimal digits); Float / Double constants are
+   OUTSIDE (their Debug text is not their bit pattern): [ld_of] answers None and so does [tr]. *)
+Inductive xhandle :=
+| XHField (kind : Z) (c n d : str)
+| XHMethod (kind : Z) (iface : bool) (c n d : str).
+Inductive xload :=
+| XInt (z : Z) | XLong (z : Z) | XClass (c : str) | XString (s : str) | XHandle (h : xhandle) | XMType (d : str)
+| XDyn (n d : str) (h : xhandle) (args : list xload).
+Inductive xop :=
+| XLdc (x : xload)
+| XIndyOp (n d : str) (h : xhandle) (args : list xload).
+
+Definition sz_of (v : val) : option Z :=
+  match v with
+  | VOpaque (c :: r) =>
+      if (c =? 45)%N then match r with [] => None | _ :: _ => option_map (fun n => (- Z.of_N n)%Z) (dec_digits 0 r) end
+      else option_map Z.of_N (dec_digits 0 (c :: r))
+  | _ => None
+  end.
+
+Definition hfield (k : Z) (fs : list (string * val)) : option xhandle :=
+  match obind (fld fs "0") ref3_of with Some (c, n, d) => Some (XHField k c n d) | None => None end.
+Definition hmethod (k : Z) (b : bool) (fs : list (string * val)) : option xhandle :=
+  match obind (fld fs "0") ref3_of with Some (c, n, d) => Some (XHMethod k b c n d) | None => None end.
+Definition handle_of (v : val) : option xhandle :=
+  match v with
+  | VNode n c fs =>
+      if negb (n =? "Handle") then None
+      else if c =? "GetField" then hfield 1 fs
+      else if c =? "GetStatic" then hfield 2 fs
+      else if c =? "PutField" then hfield 3 fs
+      else if c =? "PutStatic" then hfield 4 fs
+      else if c =? "InvokeVirtual" then hmethod 5 false fs
+      else if c =? "InvokeStatic" then match iface_of fs with Some b => hmethod 6 b fs | None => None end
+      else if c =? "InvokeSpecial" then match iface_of fs with Some b => hmethod 7 b fs | None => None end
+      else if c =? "NewInvokeSpecial" then hmethod 8 false fs
+      else if c =? "InvokeInterface" then hmethod 9 false fs
+      else None
+  | _ => None
+  end.
+
+Fixpoint oall {A} (l : list (option A)) : option (list A) :=
+  match l with
+  | [] => Some []
+  | Some x :: r => match oall r with Some ys => Some (x :: ys) | None => None end
+  | None :: _ => None
+  end.
+
+(* struct ConstantDynamic / InvokeDynamic { name, descriptor, handle, arguments } *)
+Definition dyn_with (sn : string) (rec : list val -> option (list xload)) (x : val) : option (str * str * xhandle * list xload) :=
+  match x with
+  | VNode n1 c1 [(k1, VStr nm); (k2, VStr d); (k3, h); (k4, VList args)] =>
+      if (n1 =? sn) && (c1 =? "") && (k1 =? "name") && (k2 =? "descriptor") && (k3 =? "handle") && (k4 =? "arguments") then
+        match handle_of h, rec args with
+        | Some h', Some a => Some (nm, d, h', a)
+        | _, _ => None
+        end
+      else None
+  | _ => None
+  end.
+
+Fixpoint ld_of (v : val) {struct v} : option xload :=
+  match v with
+  | VNode n c [(k0, x)] =>
+      if negb ((n =? "Loadable") && (k0 =? "0")) then None
+      else if c =? "Integer" then option_map XInt (sz_of x)
+      else if c =? "Long" then option_map XLong (sz_of x)
+      else if c =? "Class" then match x with VStr s => Some (XClass s) | _ => None end
+      else if c =? "String" then match x with VStr s => Some (XString s) | _ => None end
+      else if c =? "MethodHandle" then option_map XHandle (handle_of x)
+      else if c =? "MethodType" then match x with VStr s => Some (XMType s) | _ => None end
+      else if c =? "Dynamic" then
+        match dyn_with "ConstantDynamic" (fun args => oall (map ld_of args)) x with
+        | Some (nm, d, h, a) => Some (XDyn nm d h a)
+        | None => None
+        end
+      else None
+  | _ => None
+  end.
+Definition lds_of (args : list val) : option (list xload) := oall (map ld_of args).
+Definition dyn_of (sn : string) (x : val) : option (str * str * xhandle * list xload) := dyn_with sn lds_of x.
+
+(* the operand of Instruction::Ldc / Instruction::InvokeDynamic *)
+Definition ld_ref (i : val) : option xop :=
+  match i with
+  | VNode n c [(k0, x)] =>
+      if negb ((n =? "Instruction") && (k0 =? "0")) then None
+      else if c =? "Ldc" then option_map XLdc (ld_of x)
+      else if c =? "InvokeDynamic" then
+        match dyn_of "InvokeDynamic" x with Some (nm, d, h, a) => Some (XIndyOp nm d h a) | None => None end
+      else None
+  | _ => None
+  end.
+
+(* what the remapper answers: class names (map_class_any), field / method descriptors and method types (map_desc), the
+   owner, name and descriptor of a handle (map_field_ref / map_method_ref); the names of dynamic constants and call sites,
+   numbers and strings are kept *)
+Definition remap_xhandle (R : remapper) (h : xhandle) : res xhandle :=
+  match h with
+  | XHField k c n d => match map_field_ref R (c, n, d) with Ok (c', n', d') => Ok (XHField k c' n' d') | Err => Err end
+  | XHMethod k b c n d => match map_method_ref R (c, n, d) with Ok (c', n', d') => Ok (XHMethod k b c' n' d') | Err => Err end
+  end.
+Fixpoint remap_xload (R : remapper) (x : xload) {struct x} : res xload :=
+  match x with
+  | XInt _ | XLong _ | XString _ => Ok x
+  | XClass c => match map_class_any R c with Ok c' => Ok (XClass c') | Err => Err end
+  | XHandle h => match remap_xhandle R h with Ok h' => Ok (XHandle h') | Err => Err end
+  | XMType d => match map_desc R d with Ok d' => Ok (XMType d') | Err => Err end
+  | XDyn n d h args =>
+      match map_desc R d, remap_xhandle R h, mapM (remap_xload R) args with
+      | Ok d', Ok h', Ok args' => Ok (XDyn n d' h' args')
+      | _, _, _ => Err
+      end
+  end.
+Definition remap_xop (R : remapper) (o : xop) : res xop :=
+  match o with
+  | XLdc x => match remap_xload R x with Ok x' => Ok (XLdc x') | Err => Err end
+  | XIndyOp n d h args =>
+      match map_desc R d, remap_xhandle R h, mapM (remap_xload R) args with
+      | Ok d', Ok h', Ok args' => Ok (XIndyOp n d' h' args')
+      | _, _, _ => Err
+      end
+  end.
+
+(* … as C02's writer model takes them *)
+Definition chandle_of (h : xhandle) : C02.Class.handle :=
+  match h with
+  | XHField k c n d => {| C02.Class.h_kind := k; C02.Class.h_ref := mref c n d; C02.Class.h_iface := false |}
+  | XHMethod k b c n d => {| C02.Class.h_kind := k; C02.Class.h_ref := mref c n d; C02.Class.h_iface := b |}
+  end.
+Fixpoint cload_of (x : xload) : C02.Class.loadable :=
+  match x with
+  | XInt z => C02.Class.LInt z
+  | XLong z => C02.Class.LLong z
+  | XClass c => C02.Class.LClass (C02.Class.mutf8 c)
+  | XString s => C02.Class.LString (C02.Class.mutf8 s)
+  | XHandle h => C02.Class.LHandle (chandle_of h)
+  | XMType d => C02.Class.LMethodType (C02.Class.mutf8 d)
+  | XDyn n d h args => C02.Class.LDynamic (C02.Class.mutf8 n) (C02.Class.mutf8 d) (chandle_of h) (map cload_of args)
+  end.
+(* ldc: the writer chooses ldc / ldc_w / ldc2_w; invokedynamic: 186, index, 0, 0 *)
+Definition cinsn_of_x (o : xop) : C02.Class.cinsn :=
+  match o with
+  | XLdc x => C02.Class.ILdc (cload_of x)
+  | XIndyOp n d h args =>
+      C02.Class.ICp [186%N] (C02.Class.KIndy (C02.Class.mutf8 n) (C02.Class.mutf8 d) (chandle_of h) (map cload_of args)) [0%N; 0%N]
+  end.
+
+(* ---------------- the local-variable family, bipush / sipush, the switches ----------------
+   duke/src/simple_class_writer.rs: xload / xstore with an index below 4 -> the one-byte form ((opcode - iload) * 4 + index +
+   iload_0, resp. istore / istore_0), below 256 -> opcode, u8, else wide (196), opcode, u16; iinc -> 132, u8, i8 when index
+   and value fit, else wide 132 u16 i16; ret -> 169, u8 or wide; bipush 16, i8; sipush 17, i16; newarray 188, atype (JVMS table 6.5.newarray-A: T_BOOLEAN 4 … T_LONG 11).  The switches go to C02's
+   ITSwitch / ILSwitch (padding, offsets and the checks low <= high, table size, sorted keys are C02's model). *)
+Definition lvidx_of (v : val) : option N :=
+  match v with
+  | VNode _ _ fs => obind (obind (fld fs "index") n_of) (fun n => if (n <? 65536)%N then Some n else None)
+  | _ => None
+  end.
+Definition be16n (n : N) : list N := [n / 256; n mod 256]%N.
+Definition wrap (z m : Z) : N := Z.to_N (z mod m).
+Definition load_ops : list (string * N) := [("ILoad", 21); ("LLoad", 22); ("FLoad", 23); ("DLoad", 24); ("ALoad", 25)]%N.
+Definition store_ops : list (string * N) := [("IStore", 54); ("LStore", 55); ("FStore", 56); ("DStore", 57); ("AStore", 58)]%N.
+Definition lv_bytes (op first base0 idx : N) : list N :=
+  (if idx <? 4 then [(op - first) * 4 + idx + base0] else if idx <? 256 then [op; idx] else 196 :: op :: be16n idx)%N.
+Definition in_range (lo hi z : Z) : bool := ((lo <=? z) && (z <=? hi))%Z.
+Definition raw_insn (c : string) (fs : list (string * val)) : option (list N) :=
+  match fs with
+  | [(_, a)] =>
+      match assoc c load_ops, assoc c store_ops with
+      | Some op, _ => option_map (lv_bytes op 21 26) (lvidx_of a)
+      | None, Some op => option_map (lv_bytes op 54 59) (lvidx_of a)
+      | None, None =>
+          if c =? "Ret" then option_map (fun i => if (i <? 256)%N then [169%N; i] else 196%N :: 169%N :: be16n i) (lvidx_of a)
+          else if c =? "BiPush" then obind (sz_of a) (fun z => if in_range (-128) 127 z then Some [16%N; wrap z 256] else None)
+          else if c =? "SiPush" then obind (sz_of a) (fun z => if in_range (-32768) 32767 z then Some (17%N :: be16n (wrap z 65536)) else None)
+          else if c =? "NewArray" then
+            match a with
+            | VNode _ k [] => option_map (fun t => [188%N; t]) (assoc k (numbered 4 ["Boolean"; "Char"; "Float"; "Double"; "Byte"; "Short"; "Int"; "Long"]))
+            | _ => None
+            end
+          else None
+      end
+  | [(_, a); (_, b)] =>
+      if c =? "IInc" then
+        obind (lvidx_of a) (fun i => obind (sz_of b) (fun z =>
+          if in_range (-32768) 32767 z then
+            Some (if (i <? 256)%N && in_range (-128) 127 z then [132%N; i; wrap z 256]
+                  else (196%N :: 132%N :: be16n i ++ be16n (wrap z 65536))%list)
+          else None))
+      else None
+  | _ => None
+  end.
+Definition tr_pair (p : val) : option (Z * N) :=
+  match p with VPair k l => obind (sz_of k) (fun a => option_map (fun b => (a, b)) (label_of l)) | _ => None end.
+Definition switch_insn (c : string) (fs : list (string * val)) : option C02.Class.cinsn :=
+  if c =? "TableSwitch" then
+    obind (obind (fld fs "default") label_of) (fun d =>
+    obind (obind (fld fs "low") sz_of) (fun lo =>
+    obind (obind (fld fs "high") sz_of) (fun hi =>
+    option_map (C02.Class.ITSwitch d lo hi) (obind (fld fs "table") (list_of label_of)))))
+  else if c =? "LookupSwitch" then
+    obind (obind (fld fs "default") label_of) (fun d =>
+    option_map (C02.Class.ILSwitch d) (obind (fld fs "pairs") (list_of tr_pair)))
+  else None.
+
 Definition tr_insn (i : val) : option C02.Class.cinsn :=
   match op_ref i with
   | Some o => Some (cinsn_of o)
   | None =>
+      match ld_ref i with Some o => Some (cinsn_of_x o) | None =>
       match i with
       | VNode n c fs =>
           if n =? "Instruction" then
+            match raw_insn c fs with Some bs => Some (C02.Class.IRaw bs) | None =>
+            match switch_insn c fs with Some ci => Some ci | None =>
             match fs with
             | [] => option_map (fun op => C02.Class.IRaw [op]) (assoc c simple_ops)
             | [(_, l)] => obind (assoc c branch_ops) (fun k => option_map (C02.Class.IBr k) (label_of l))
             | _ => None
             end
+            end
+            end
           else None
       | _ => None
+      end
       end
   end.
 
